@@ -9,7 +9,7 @@ From Coq Require Import List Arith.
 Import ListNotations.
 Require Import PSO.AbstractM.Model PSO.AbstractM.Kstep PSO.AbstractM.Cfg
   PSO.AbstractM.Safety1_WF PSO.AbstractM.Safety6_LC PSO.AbstractM.Safety7_SM
-  PSO.AbstractM.SafetyAll PSO.AbstractM.Theorems PSO.AbstractM.Examples.
+  PSO.AbstractM.SafetyAll PSO.AbstractM.Theorems PSO.AbstractM.Examples PSO.AbstractM.Replay.
 
 (* ---------- the core lemma: majorities of member sets that differ by one node meet ---------- *)
 Theorem M0_single_change_majorities_intersect : forall A B Q1 Q2 : list nat,
@@ -194,3 +194,15 @@ Proof.
   split; [discriminate|]. vm_compute. repeat split; auto.
 Qed.
 Print Assumptions M_nonvacuous.
+
+(* the rules as coded, guards and member filter on, NO id re-use: the operator reads the member
+   list while a change is pending (run E) *)
+Theorem R4_C10_as_coded_list_read_during_change_refuted : sms_violated [0; 1; 2] (mkF true false false false true).
+Proof. exact C10_as_coded_list_read_during_change_refuted. Qed.
+Print Assumptions R4_C10_as_coded_list_read_during_change_refuted.
+
+(* ---------- the as-coded joiner: a COMPLETE replay over the list of a log prefix is consistent ---------- *)
+Theorem M9_joiner_replay_consistent : forall C0 lK r y x,
+  In x (others_of y (del y (gcfg C0 lK)) (lK ++ r)) <-> In x (del y (gcfg C0 (lK ++ r))).
+Proof. exact joiner_replay_consistent. Qed.
+Print Assumptions M9_joiner_replay_consistent.
